@@ -118,6 +118,10 @@ pub fn execute_program(
     // Loop on instructions
     let mut insn_ptr: usize = 0;
     while insn_ptr * ebpf::INSN_SIZE < prog.len() {
+        #[cfg(feature = "verif-hooks")]
+        if crate::verif_hooks::tick() {
+            return Err(Error::other("Error: [verif] instruction budget exhausted"));
+        }
         let insn = ebpf::get_insn(prog, insn_ptr);
         if stack_frame_idx < MAX_CALL_DEPTH
             && let Some(usage) = stack_usage.stack_usage_for_local_func(insn_ptr) {
